@@ -718,7 +718,10 @@ impl Router {
                 Packet::Unsubscribe(unsubscribe, _) => {
                     let connection = self.connections.get_mut(id).unwrap();
                     let pkid = unsubscribe.pkid;
-                    for filter in &unsubscribe.filters {
+                    // exactly one UNSUBACK per UNSUBSCRIBE, with one reason per requested filter
+                    let mut reasons =
+                        vec![UnsubAckReason::NoSubscriptionExisted; unsubscribe.filters.len()];
+                    for (i, filter) in unsubscribe.filters.iter().enumerate() {
                         let span = tracing::info_span!("unsubscribe", topic = filter, pkid);
                         let _guard = span.enter();
 
@@ -755,22 +758,21 @@ impl Router {
                             // remove the subscription id
                             connection.subscription_ids.remove(filter);
 
-                            let unsuback = UnsubAck {
-                                pkid,
-                                // reasons are used in MQTTv5
-                                reasons: vec![UnsubAckReason::Success],
-                            };
-                            let ackslog = self.ackslog.get_mut(id).unwrap();
-                            ackslog.unsuback(unsuback);
+                            reasons[i] = UnsubAckReason::Success;
                             self.scheduler.untrack(id, filter);
                             self.datalog.remove_waiters_for_id(id, filter);
                             // a publish earlier in this batch may already have moved the
                             // parked request of this subscription to the wake-up list
                             self.notifications
                                 .retain(|(cid, req)| *cid != id || req.filter != *filter);
-                            force_ack = true;
                         }
                     }
+
+                    // reasons are used in MQTTv5
+                    let unsuback = UnsubAck { pkid, reasons };
+                    let ackslog = self.ackslog.get_mut(id).unwrap();
+                    ackslog.unsuback(unsuback);
+                    force_ack = true;
                 }
                 Packet::PubAck(puback, _) => {
                     let span = tracing::info_span!("puback", pkid = puback.pkid);
